@@ -322,11 +322,14 @@ func c10GenShape(rng *kit.RNG, i int, reverse bool) c10Shape {
 		// subscription ends with Unknown "segment has been closed")
 		sh.CleanWaiting = rng.Bool()
 	}
+	// half of the directly appended logs carry runs of equal timestamps
+	sh.EqTS = !sh.ViaAPI && sh.N > 0 && rng.Bool()
 	return sh
 }
 
 func c10Assumptions(rep *kit.Report) {
-	rep.Assume("oracle content = raw scan of the partition log with an uncommitted reader (trusted; C01/C08 check it) + HighWatermark(); message timestamps are strictly increasing in offset order (mocked clock, +10 per reading); duplicated or decreasing timestamps are not generated")
+	rep.Assume("oracle content = raw scan of the partition log with an uncommitted reader (trusted; C01/C08 check it) + HighWatermark(); every clock reading is different (mocked clock, +10 per reading), so messages stamped by the server itself have strictly increasing timestamps; directly appended logs of shape '+eqts' carry runs of 2..5 consecutive messages with EQUAL timestamps (a clock that repeats a reading; nothing in the write path excludes it), inside a segment, across segment boundaries, at the log start and end; timestamps never decrease (not generated)")
+	rep.Assume("with equal timestamps the documented wording is taken literally: a TIMESTAMP start is the FIRST retained message with timestamp >= the start time (client_implementation.md StartAtTime; commitlog.EarliestOffsetAfterTimestamp 'earliest offset whose timestamp is greater than or equal'), a STOP_TIMESTAMP range holds EVERY message with timestamp <= the stop time, i.e. it ends at the LAST message carrying that timestamp (commitlog.LatestOffsetBeforeTimestamp 'latest offset whose timestamp is less than or equal'; inclusive bound pinned by TestSubscribeStopPosition); the stop offset is resolved at subscribe time, so the fence (always a fresh timestamp) lies beyond it")
 	rep.Assume("documented start rules used: OFFSET/TIMESTAMP = first retained message with offset/timestamp >= the value (client_implementation.md StartAtOffset/StartAtTime), so a start below the oldest retained offset or inside a compaction gap yields the next retained message (TestSubscribeOffsetUnderflow); EARLIEST = oldest retained, LATEST = newest, NEW_ONLY = after the newest; any resolved start above the HW waits for the next message that becomes committed, i.e. delivery resumes at HW+1 (TestSubscribeOffsetOverflow, TestSubscribeOffsetOverflowEmptyStream) - this also covers LATEST/NEW_ONLY/TIMESTAMP resolving into a not yet committed tail")
 	rep.Assume("documented stop rules used: STOP_OFFSET / STOP_LATEST / STOP_TIMESTAMP deliver the retained messages up to and including the stop offset / the newest offset at subscribe time / the last message with timestamp <= the stop time (inclusive bounds pinned by TestSubscribeStopPosition) and then end with ResourceExhausted; the end is demanded as soon as a committed message at or beyond the stop offset exists; a read-only partition ends with ResourceExhausted at the end of the log (TestSetStreamReadonlySubscription); STOP_LATEST on an empty stream fails immediately with ResourceExhausted (TestSubscribeStopPosition)")
 	rep.Assume("when the requested range can never hold a message (stop before the start, stop timestamp before the first message, NEW_ONLY on a read-only partition) an error returned by the subscribe call itself (any code) is accepted in place of the terminal status; if the subscription is created it must deliver nothing and end with ResourceExhausted")
@@ -337,16 +340,28 @@ func c10Assumptions(rep *kit.Report) {
 
 // c10Run drives one unit: nShapes shaped logs, each with up to nCases requests.
 func c10Run(t *testing.T, unit string, reverse bool, nShapes, nCases int) {
+	c10RunOpt(t, unit, reverse, nShapes, nCases, nil, nil)
+}
+
+// c10RunOpt: cfgMut adjusts the server configuration, gen replaces the shape
+// generator (batch unit).
+func c10RunOpt(t *testing.T, unit string, reverse bool, nShapes, nCases int, cfgMut func(*Config), gen func(rng *kit.RNG, i int) c10Shape) {
 	rep := kit.NewReport("C10", unit)
 	defer rep.Write()
 	c10InstallClock()
 	c10Assumptions(rep)
 	rep.SetRule("seeded log shapes (kind dense/compacted/trimmed/both/empty x segment size 1B..1MiB x append batch 1..3 x uncommitted tail 0..4 x HW inside a compacted segment x read-only via SetStreamReadonly x published through the API or appended directly x empty active segment rolled by the cleaner) on one single-node server, one stream per shape; per shape a shuffled product of start classes (" + fmt.Sprint(len(c10StartClasses)) + ") x stop classes is resolved against the CURRENT log content and issued through apiServer.SubscribeInternal; every delivery is compared (offset, key, value, timestamp) with the list the oracle computed from a raw scan + HW, finite ranges must end with the documented status, keep-waiting is shown by a fence message (append + commit) arriving as the next delivery; non-trivial = request held on a log with gaps / trimmed head / HW below the end / read-only / several segments and delivered or ended; distinct = shape label + start class + stop class")
+	if gen != nil {
+		rep.SetRule("seeded logs PUBLISHED THROUGH THE PUBLISH API in bursts of 1..8 concurrent publishers (kinds dense / compacted / trimmed / both, segment size 1B..1MiB, uncommitted tail 0..3 appended directly, read-only) on a single-node server whose leader batches (this unit: see the unit name - batch.max.time 3 ms + batch.max.messages 5, or the defaults), every clock reading different (mocked clock); per log a shuffled product of the forward unit's start x stop classes, which include the RECEPTION TIMESTAMP OF AN ACK (first / middle / last message of a burst) as start and as stop time and the timestamp of a run of equal timestamps if the log has one; judged by the forward unit's oracle (raw scan + HW + documented rules: stop time T = every message with timestamp <= T, start time T = first message with timestamp >= T); non-trivial / distinct as in the forward unit")
+	}
 	c, srv, err := vfSingle("c10"+unit, func(cfg *Config) {
 		cfg.Streams.CleanerInterval = 3600 * 1e9
 		// keep the server's error log in the unit's log.txt (diagnosis only)
 		cfg.LogSilent = false
 		cfg.LogLevel = 2
+		if cfgMut != nil {
+			cfgMut(cfg)
+		}
 	})
 	if err != nil {
 		rep.Inconc("server start: " + err.Error())
@@ -354,6 +369,9 @@ func c10Run(t *testing.T, unit string, reverse bool, nShapes, nCases int) {
 	}
 	defer c.Cleanup()
 	root := kit.NewRNG(kit.Mix(kit.Seed(), map[bool]uint64{false: 0xC10F, true: 0xC10B}[reverse]))
+	if gen != nil {
+		root = kit.NewRNG(kit.Mix(kit.Seed(), 0xC10BA7))
+	}
 	seeds := make([]uint64, nShapes)
 	for i := range seeds {
 		seeds[i] = root.Uint64()
@@ -363,7 +381,12 @@ func c10Run(t *testing.T, unit string, reverse bool, nShapes, nCases int) {
 			return
 		}
 		rng := kit.NewRNG(seeds[i])
-		sh := c10GenShape(rng, i, reverse)
+		sh := c10Shape{}
+		if gen != nil {
+			sh = gen(rng, i)
+		} else {
+			sh = c10GenShape(rng, i, reverse)
+		}
 		e, err := c10Build(rep, c, srv, sh, seeds[i])
 		if err != nil {
 			rep.Inconc(fmt.Sprintf("shape %d (%+v) could not be built: %v", i, sh, err))
@@ -386,6 +409,24 @@ func c10Run(t *testing.T, unit string, reverse bool, nShapes, nCases int) {
 			}
 			if st.Readonly {
 				rep.Count("shapes_readonly", 1)
+			}
+			if runs := st.eqRuns(); len(runs) > 0 {
+				rep.Count("shapes_with_equal_timestamp_runs", 1)
+				rep.Count("equal_timestamp_runs", int64(len(runs)))
+				for _, r := range runs {
+					if st.segOf(st.All[r[0]].Off) != st.segOf(st.All[r[1]].Off) {
+						rep.Count("equal_timestamp_runs_across_segments", 1)
+					}
+					if r[0] == 0 {
+						rep.Count("equal_timestamp_runs_at_log_start", 1)
+					}
+					if r[1] == len(st.All)-1 {
+						rep.Count("equal_timestamp_runs_at_log_end", 1)
+					}
+				}
+			}
+			if len(st.Acks) > 0 {
+				rep.Count("shapes_published_in_bursts", 1)
 			}
 			if len(st.Bases) > 0 && st.Bases[len(st.Bases)-1] > st.Newest && len(st.All) > 0 {
 				rep.Count("shapes_empty_active_segment", 1)
@@ -450,7 +491,10 @@ func (e *c10Env) runForwardCases(rng *kit.RNG, nCases int) {
 		if out.syncErr {
 			rep.Count("subscribe_call_errors", 1)
 		}
-		special := len(st.gaps(st.Oldest, st.Newest)) > 0 || st.Oldest > 0 || st.HW < st.Newest || st.Readonly || len(st.Bases) > 1 || st.emptyActive()
+		special := len(st.gaps(st.Oldest, st.Newest)) > 0 || st.Oldest > 0 || st.HW < st.Newest || st.Readonly || len(st.Bases) > 1 || st.emptyActive() || len(st.eqRuns()) > 0 || len(st.Acks) > 0
+		if (s.Pos == client.StartPosition_TIMESTAMP && st.runOf(s.TS) >= 2) || (tt.Pos == client.StopPosition_STOP_TIMESTAMP && st.runOf(tt.TS) >= 2) {
+			rep.Count("requests_with_start_or_stop_time_on_an_equal_timestamp_run", 1)
+		}
 		if out.ok && special && (out.delivered > 0 || out.terminal || out.fenced) {
 			rep.Nontrivial("fwd|" + e.shape.label() + "|" + pr.s + "|" + pr.t)
 		}
